@@ -168,6 +168,27 @@ def run(ctx):
                 ctx.ob("N-EMPTY", "fold_atom %s" % s["rv"]["variant"], not bad, "a path reaches the constructor without a non-empty test of the name",
                        "%s:%s" % (fa["span"]["file"], s["line"]))
     ctx.floor("named atom constructors in fold_atom", named, 5)
+    # ... and the rejection is no stronger than that: the Err guard is a CONJUNCTION containing `name.is_empty()` (with `||` every
+    # non-placeholder atom would be rejected -- all five constructors dead, which the reachability rule above cannot see)
+    fah = f.hir_fn("fold_atom", module="lexical_fold::impl_enum")
+    guards_ = []
+    for st_ in strip(fah["body"])["stmts"]:
+        x = strip(st_["expr"]) if st_["k"] in ("Semi", "Expr") else None
+        if x is not None and x["k"] == "If" and any(n_.get("k") == "Ret" for n_ in hir.walk(x["then"])):
+            guards_.append(x)
+
+    def conjuncts(e_):
+        e_ = strip(e_)
+        if e_["k"] == "Binary" and e_["op"] in ("&&", "And"):
+            return conjuncts(e_["l"]) + conjuncts(e_["r"])
+        return [e_]
+    okg = len(guards_) == 1
+    if okg:
+        cs = conjuncts(guards_[0]["cond"])
+        okg = any(c["k"] == "MethodCall" and c["method"] == "is_empty" and field_path(c["recv"]) == ("name",) for c in cs) \
+            and not any(c["k"] == "Binary" and c["op"] in ("||", "Or") for c in cs)
+    ctx.ob("N-EMPTY", "fold_atom rejects ONLY empty names (the Err guard is a conjunction containing name.is_empty())", okg,
+           "one early Err return guarded by `name.is_empty() && ..` expected")
     T = tables.Tables(ctx)
     for name in T.names:
         e = T.e_roles(name)
@@ -236,6 +257,8 @@ def run(ctx):
     import roles as _roles
     _roles.rule_R_ROLE(ctx, modules=('conversion::string::impl_enum::parser', 'conversion::inter_type', 'enum_narsese::'))
     _roles.rule_A_NAMES(ctx, modules=('conversion::string::impl_enum::parser', 'conversion::inter_type', 'enum_narsese::'))
+    import lskel as _lskel
+    _lskel.rule_L_SKELETON(ctx, which=('fold', 'term'), floor=10)
     ctx.undecided = ["identifier well-formedness of parsed names beyond non-emptiness (value-dependent)",
                      "formatting totality relies on the reviewed table for its index sites and on std formatting being total"]
     ctx.assumptions = ["axioms of C04 (usize +, finite iterators, unlisted external callees total)"]
